@@ -442,7 +442,8 @@ class _MinimizeStub:
 
     def __call__(self, fun, x0, args=(), bounds=None, **kw):
         self.calls.append(dict(fun=fun, x0=x0, args=args, bounds=bounds, kw=kw))
-        return {"x": self.answer, "success": True}
+        import scipy.optimize
+        return scipy.optimize.OptimizeResult(x=self.answer, success=True, fun=None, nit=0, message="stub")
 
 
 def _scaled_moments(hh, cc, L, hs, cs):
@@ -464,7 +465,8 @@ def replay_gctm(hv, pv, L, hs, cs, xv):
 
     def fake(fun, x0, args=(), bounds=None, **kw):
         rec.update(fun=fun, x0=numpy.array(x0, dtype=float), args=args, bounds=bounds)
-        return {"x": xv.copy()}
+        import scipy.optimize
+        return scipy.optimize.OptimizeResult(x=xv.copy(), success=True, fun=None, nit=0, message="controlled optimiser")
     old = pc.minimize
     pc.minimize = fake
     try:
